@@ -670,4 +670,36 @@ def A6(ctx: Ctx) -> RuleResult:
     return r
 
 
-RULES = {'A1': A1, 'A2': A2, 'A3': A3, 'A3u': A3u, 'A3r': A3r, 'A3p': A3p, 'A3n': A3n, 'A4': A4, 'A5': A5, 'A6': A6}
+# the class every child slot must accept (instance_of / annotation): narrower classes reject well-formed trees
+A7_EXPECTED = {'HplExpression'}
+
+
+def A7(ctx: Ctx) -> RuleResult:
+    r = RuleResult('A7', 'expression-typed child slots accept every expression: the instance_of / deep_iterable(instance_of) validator and the annotation of such a field name HplExpression itself, not a subclass')
+    tab = slot_table(ctx)
+    expr_root = ctx.model.cls('HplExpression', 'A7')
+    n = 0
+    for cname, slots in tab.items():
+        c = ctx.model.cls(cname)
+        if expr_root not in c.mro():
+            continue
+        for s_ in slots:
+            f = s_.f
+            val = f.kwargs.get('validator')
+            names = []
+            for nd in ([val] if val is not None and not isinstance(val, (ast.List, ast.Tuple)) else (val.elts if val is not None else [])):
+                for x in ast.walk(nd):
+                    if isinstance(x, ast.Call) and ast.unparse(x.func).split('.')[-1] == 'instance_of' and x.args:
+                        names.extend(ast.unparse(a) for a in (x.args[0].elts if isinstance(x.args[0], ast.Tuple) else [x.args[0]]))
+            for nm in names:
+                n += 1
+                k = ctx.model.classes.get(nm)
+                if k is not None and expr_root in k.mro() and k is not expr_root:
+                    r.fail(f'{cname}.{f.name}:instance_of', f'{cname}.{f.name} only accepts {nm}: expressions of the other classes (operators, calls, accesses) are rejected with a TypeError although the grammar puts them there', f.where, 'HplExpression', nm)
+                else:
+                    r.ok(f'{cname}.{f.name}: instance_of({nm})')
+    r.floor('instance_of validators on expression slots', n, 5)
+    return r
+
+
+RULES = {'A7': A7, 'A1': A1, 'A2': A2, 'A3': A3, 'A3u': A3u, 'A3r': A3r, 'A3p': A3p, 'A3n': A3n, 'A4': A4, 'A5': A5, 'A6': A6}
